@@ -137,6 +137,35 @@ class Shape:
         self.dims = tuple(dims)
 
 
+class PyRaise(Exception):
+    """a python exception of a known type raised by a modelled library object (e.g. KeyError from hdulist['MISSING'])"""
+    def __init__(self, exc, msg=''):
+        Exception.__init__(self, '%s: %s' % (exc, msg))
+        self.exc = exc
+
+
+class Foreign:
+    """Base class for symbolic models of library objects (FITS HDUs, tables, pickle streams, ...) that the interpreter manipulates through a small
+    protocol; every method may return NotImplemented (the interpreter then gives an unknown value)."""
+    def sl_getattr(self, interp, name, node): return NotImplemented
+    def sl_setattr(self, interp, name, val, node): return NotImplemented
+    def sl_getitem(self, interp, key, node): return NotImplemented
+    def sl_setitem(self, interp, key, val, node): return NotImplemented
+    def sl_method(self, interp, name, args, kw, node): return NotImplemented
+    def sl_contains(self, interp, item): return NotImplemented
+    def sl_len(self, interp): return NotImplemented
+    def sl_iter(self, interp): return NotImplemented
+
+
+class UnitStr(Foreign):
+    """a unit written as a string (unit.to_string()): modelled by the unit it spells"""
+    def __init__(self, poly):
+        self.poly = poly
+
+    def __repr__(self):
+        return 'UnitStr<%s>' % alg.show(self.poly, 40)
+
+
 class Raised(Exception):
     """a repo function called by the statement being interpreted raises on this configuration"""
     def __init__(self, fi, node):
@@ -194,6 +223,7 @@ class Interp:
         self.depth = 0
         self.stack = []
         self.unit_checks = []
+        self.uncaught = None     # text of a library exception that escaped the function interpreted at top level
         self.track_xr = False    # keep expression trees of arithmetic/comparisons (Arr.xr) and log reductions over them
         self.xr_log = []         # (result poly, kind, tree of the reduced argument)
         self.exact_le = False    # True: a <= b is kept exact (not identified with a < b); used when ties are in the quantifier
@@ -230,6 +260,11 @@ class Interp:
         self.stack.append(fi.qual)
         try:
             sig = self.block(fi.node.body, env, fi.module)
+        except PyRaise as pr:
+            if self.depth > 1:
+                raise                 # propagates to a handler in a calling function, if any
+            sig = ('raise', node)
+            self.uncaught = str(pr)
         finally:
             self.depth -= 1
             self.stack.pop()
@@ -239,6 +274,10 @@ class Interp:
             return None
         if sig[0] == 'return':
             return sig[1]
+        if sig[0] == 'rguard':
+            _, cret, val, e_ret, e_go = sig
+            merge_env(env, e_ret, e_go, cret, node)
+            return merge_val(val, None, cret, node)
         if sig[0] == 'raise':
             if self.depth > 0:
                 raise Raised(fi, sig[1])          # the calling statement raises too
@@ -260,6 +299,23 @@ class Interp:
                     self._poison_block(body[k + 1:], env, Unk('control flow after a conditional continue', st))
                     return None
                 merge_env(env, e_skip, e_go, skip, st)
+                return None
+            if sig is not None and sig[0] == 'rguard':
+                _, cret, val, e_ret, e_go = sig
+                rest = self.block(body[k + 1:], e_go, mod)
+                if rest is not None and rest[0] == 'return':
+                    merge_env(env, e_ret, e_go, cret, st)            # side effects of the part that ran only when not returning early
+                    return ('return', merge_val(val, rest[1], cret, st))
+                if rest is not None and rest[0] == 'rguard':
+                    _, c2, v2, er2, eg2 = rest
+                    # first guard returns val under cret; otherwise the second returns v2 under c2
+                    both = cret + alg.b_not(cret) * c2
+                    merged_ret = fork(env)
+                    merge_env(merged_ret, e_ret, er2, cret, st)
+                    return ('rguard', both, merge_val(val, v2, cret, st), merged_ret, eg2)
+                if rest is None:
+                    return ('rguard', cret, val, e_ret, e_go)          # the enclosing block goes on under (not cret)
+                self._poison_block(body[k + 1:], env, Unk('control flow after a conditional return', st))
                 return None
             if sig is not None:
                 return sig
@@ -347,8 +403,19 @@ class Interp:
         if isinstance(st, ast.Assert):
             return None
         if isinstance(st, ast.Try):
-            # the normal path; a handler is followed only when the configuration hook selects it
-            sig = self.block(st.body, env, mod)
+            # the normal path; a handler is followed only when the configuration hook selects it, or when a modelled
+            # library object raised an exception of a type the handler names
+            try:
+                sig = self.block(st.body, env, mod)
+            except PyRaise as pr:
+                for hd in st.handlers:
+                    names_ = [] if hd.type is None else [up(x).split('.')[-1] for x in (hd.type.elts if isinstance(hd.type, ast.Tuple) else [hd.type])]
+                    if hd.type is None or pr.exc in names_ or 'Exception' in names_:
+                        sig = self.block(hd.body, env, mod)
+                        if sig is None and st.finalbody:
+                            sig = self.block(st.finalbody, env, mod)
+                        return sig
+                raise
             hsel = self.hooks.try_handler(self, st, env, mod)
             if hsel is not None and sig is None and hsel < len(st.handlers):
                 self.assumed.append((mod.path, st.lineno, 'try: handler %d taken' % hsel, True, 'configuration'))
@@ -383,7 +450,7 @@ class Interp:
             return bool(v)
         if isinstance(v, (list, tuple, dict)):
             return bool(v)
-        if isinstance(v, (Obj, Marker, FuncRef, ClassRef, GenList)):
+        if isinstance(v, (Obj, Marker, FuncRef, ClassRef, GenList, Foreign)):
             return True
         return None
 
@@ -422,6 +489,12 @@ class Interp:
                 skip = tv.poly if s1 else alg.b_not(tv.poly)
                 taken, other = (e1, e2) if s1 else (e2, e1)
                 return ('guard', skip, taken, other)
+            # `if c: return X` (or the mirror image): the rest of the function runs under (not c) and its result is selected by c
+            if (s1 and s1[0] == 'return' and s2 is None) or (s2 and s2[0] == 'return' and s1 is None):
+                cret = tv.poly if s1 else alg.b_not(tv.poly)
+                val = (s1 or s2)[1]
+                e_ret, e_go = (e1, e2) if s1 else (e2, e1)
+                return ('rguard', cret, val, e_ret, e_go)
             self._poison(st, env, Unk('branches of a data-dependent if end differently', st))
             return None
         # unknown condition: everything assigned in either branch is unknown
@@ -481,6 +554,9 @@ class Interp:
         """Value(s) bound to the loop target for one generic iteration, or a list for concrete unrolling."""
         if isinstance(itv, dict):
             itv = list(itv)
+        if isinstance(itv, Foreign):
+            r = itv.sl_iter(self)
+            itv = None if r is NotImplemented else r
         if isinstance(itv, (list, tuple)):
             return list(itv) if len(itv) <= 64 else None
         if isinstance(itv, GenList):
@@ -530,6 +606,9 @@ class Interp:
             o = self.expr(t.value, env, mod)
             if isinstance(o, Obj):
                 self.setattr(o, t.attr, val, t, mod)
+                return
+            if isinstance(o, Foreign):
+                o.sl_setattr(self, t.attr, val, t)
                 return
             if isinstance(o, Arr) and t.attr == 'unit':
                 return
@@ -625,6 +704,18 @@ class Interp:
         return None
 
     def store_sub(self, t, val, env, mod):
+        if not isinstance(t.value, ast.Subscript) or True:
+            base_ = None
+            try:
+                base_ = self.expr(t.value, env, mod) if not isinstance(t.value, ast.Name) or isinstance(env.get(t.value.id), Foreign) else None
+            except (Raised, PyRaise):
+                raise
+            except Exception:
+                base_ = None
+            if isinstance(base_, Foreign):
+                k = tuple(self.expr(x, env, mod) for x in t.slice.elts) if isinstance(t.slice, ast.Tuple) else self.expr(t.slice, env, mod)
+                base_.sl_setitem(self, k, val, t)
+                return
         # find base holder and accumulated condition
         chain_nodes = []
         node = t
@@ -1075,8 +1166,13 @@ class Interp:
             if (a is None) != (b is None):
                 same = False
             return same if opn is ast.Is else not same
+        if opn in (ast.In, ast.NotIn) and isinstance(b, Foreign):
+            r = b.sl_contains(self, a)
+            if r is NotImplemented or r is None:
+                return Unk('membership test on %s' % type(b).__name__, e)
+            return r if opn is ast.In else not r
         if opn in (ast.In, ast.NotIn):
-            if isinstance(b, (list, tuple, dict, str)) and isinstance(a, (str, int, float, bool, type(None))):
+            if isinstance(b, (list, tuple, dict, str)) and isinstance(a, (str, int, float, bool, type(None), Foreign)):
                 r = a in b
                 return r if opn is ast.In else not r
             return Unk('membership test', e)
@@ -1144,6 +1240,9 @@ class Interp:
             return v
         if isinstance(v, Obj):
             return self.getattr(v, name, e, mod)
+        if isinstance(v, Foreign):
+            r = v.sl_getattr(self, name, e)
+            return BoundExt(v, name) if r is NotImplemented else r
         if isinstance(v, ModRef):
             r = self.repo.resolve_name(v.mod, name)
             if r is not None:
@@ -1213,6 +1312,10 @@ class Interp:
         v = self.expr(e.value, env, mod)
         if isinstance(v, Unk):
             return v
+        if isinstance(v, Foreign):
+            k = tuple(self.expr(x, env, mod) for x in e.slice.elts) if isinstance(e.slice, ast.Tuple) else (_SliceVal(*[self.expr(x, env, mod) if x is not None else None for x in (e.slice.lower, e.slice.upper, e.slice.step)]) if isinstance(e.slice, ast.Slice) else self.expr(e.slice, env, mod))
+            r = v.sl_getitem(self, k, e)
+            return Unk('item %r of %s' % (k, type(v).__name__), e) if r is NotImplemented else r
         if isinstance(v, (tuple, list)):
             if isinstance(e.slice, ast.Slice):
                 lo = self.expr(e.slice.lower, env, mod) if e.slice.lower else None
@@ -1229,6 +1332,8 @@ class Interp:
             k = self.expr(e.slice, env, mod)
             if isinstance(k, (str, int)) and k in v:
                 return v[k]
+            if isinstance(k, (str, int, type(None), Foreign)) and all(isinstance(x, (str, int)) for x in v):
+                raise PyRaise('KeyError', repr(k))        # a concrete key (or an object that is no string) that the literal dict does not hold
             return Unk('dict key %r' % (k,), e)
         if isinstance(v, GenList):
             k = self.expr(e.slice, env, mod)
@@ -1779,6 +1884,9 @@ class Interp:
                 x = args[0]
                 if isinstance(x, (list, tuple, dict, str)):
                     return len(x)
+                if isinstance(x, Foreign):
+                    r = x.sl_len(self)
+                    return Unk('len of %s' % type(x).__name__, e) if r is NotImplemented else r
                 if isinstance(x, Arr) and x.ndim >= 1:
                     return Arr((), alg.count(x.dims[0]), unit=num(1)) if x.dims[0] else 1
                 if isinstance(x, GenList):
@@ -1942,6 +2050,9 @@ class Interp:
 
     # ---- methods of symbolic values
     def method(self, recv, name, args, kw, e, mod):
+        if isinstance(recv, Foreign):
+            r = recv.sl_method(self, name, args, kw, e)
+            return Unk('method %s of %s' % (name, type(recv).__name__), e) if r is NotImplemented else r
         if isinstance(recv, _Repeat):
             # np.repeat(x, k) flattens x and repeats every element k times; .reshape(n, k) with n = len of x's first axis is then
             # defined only when x has n elements in all, and gives out[i, j] == x[i, 0, ...]; .reshape(k, n) interleaves the rows
@@ -2010,6 +2121,8 @@ class Interp:
                         return d1 == d2
                 return Unk('is_equivalent on symbolic units', e)
             if name == 'to_string':
+                if recv.unit is not None and recv.ndim == 0 and recv.poly == recv.unit:
+                    return UnitStr(recv.unit)
                 return Unk('unit string', e)
             if name == 'diagonal' and not args and not kw and recv.ndim == 2 and recv.dims[0] and recv.dims[1] == recv.dims[0] + "'" and recv.mask is None:
                 # out[i] = a[i, i] : the primed copy of the axis is identified with the axis
@@ -2045,6 +2158,12 @@ class Interp:
                 k = args[0]
                 if isinstance(k, (str, int)):
                     return recv.get(k, args[1] if len(args) > 1 else None)
+                if isinstance(k, (type(None), Foreign)) and all(isinstance(x, (str, int)) for x in recv):
+                    return args[1] if len(args) > 1 else None
+            if name == 'items':
+                return list(recv.items())
+            if name == 'values':
+                return list(recv.values())
             if name == 'keys':
                 return list(recv.keys())
             return Unk('dict method %s' % name, e)
